@@ -340,15 +340,16 @@ type Summary struct {
 
 // Run collects cases for one property and writes shards + summary.
 type Run struct {
-	prop     string
-	outDir   string
-	header   string // Gallina header (imports)
-	caseType string
-	shards   [][]string
-	nshards  int
-	sum      Summary
-	seen     map[uint64]bool
-	next     int
+	prop      string
+	outDir    string
+	header    string // Gallina header (imports)
+	caseType  string
+	shards    [][]string
+	nshards   int
+	sum       Summary
+	seen      map[uint64]bool
+	next      int
+	vioPerKey map[string]int
 }
 
 func newRun(prop, outDir string, seed int64, nshards int, header, caseType, rule string) *Run {
@@ -381,8 +382,15 @@ func (r *Run) add(term string, input interface{}, impl string, nontrivial bool) 
 
 func (r *Run) count(k string) { r.sum.Dist[k]++ }
 
+// violation records an oracle failure; at most 8 per shape key are kept, so that a
+// frequent known finding can never crowd out a different violation.
 func (r *Run) violation(v Violation) {
-	if len(r.sum.Violations) < 50 {
+	if r.vioPerKey == nil {
+		r.vioPerKey = map[string]int{}
+	}
+	r.vioPerKey[v.Key]++
+	r.sum.Dist["oracle-violation:"+v.Key]++
+	if r.vioPerKey[v.Key] <= 8 {
 		r.sum.Violations = append(r.sum.Violations, v)
 	}
 }
